@@ -55,6 +55,18 @@ func parseNS(s string) (map[string]string, bool) {
 func compile(expr string, nsf string) (*xpath.Expr, error) {
 	ns, has := parseNS(nsf)
 	if has {
+		if len(ns) > 0 {
+			// Compile is a function of (text, bindings): an earlier compile of the same text
+			// with the same prefixes bound elsewhere must leave no trace
+			decoy := map[string]string{}
+			for k, v := range ns {
+				decoy[k] = v + "~decoy"
+			}
+			func() {
+				defer func() { recover() }()
+				xpath.CompileWithNS(expr, decoy)
+			}()
+		}
 		return xpath.CompileWithNS(expr, ns)
 	}
 	return xpath.Compile(expr)
